@@ -204,6 +204,9 @@ func OracleC10(tr *Trace) Verdict {
 		if op.Obj < 0 || !op.Applied || op.Kind != OpUpdate || op.PrevLive == nil || op.PrevLive.Actor == p.Instances[op.Inst].ID {
 			continue
 		}
+		if op.ApplyT < recoveredAt {
+			continue // a leader whose health checks are failing skips refreshes, and with them the discovery (fault-free conditions only)
+		}
 		for _, c := range claims {
 			if tr.ID(c.Inst) == op.PrevLive.Actor && c.FromSeq < op.ApplySeq && (c.ToSeq < 0 || c.ToSeq > op.ApplySeq) {
 				bound := op.ApplyT + p.H + 2*T
